@@ -400,6 +400,109 @@ auto random_value(vf::Rng& rng) -> T
 }
 
 // ---------------------------------------------------------------------------------------------- sweeps
+// Structured special values (magnitudes that sit on the boundaries of any digit-chunking scheme, in radix 10 and in
+// the radix of the call): 2^a * 10^b * base^c (+-1), (2^w +- 1) * 10^b * base^c, and for R in {10, base} the values
+// d * R^p + e whose representation in radix R has an all-zero or an all-(R-1) chunk of 1, 2, 4, 8 or 9 digits
+// (lowest chunk, or a chunk in the middle followed by zeros); negative counterparts for the signed types.
+using u128 = unsigned __int128;
+template <typename T>
+auto structured_values(int base) -> std::vector<T>
+{
+    using L           = std::numeric_limits<T>;
+    u128 const maxMag = std::is_signed_v<T> ? static_cast<u128>(L::max()) + 1 : static_cast<u128>(L::max());
+    std::vector<u128> mags;
+    auto addm = [&](u128 m) {
+        if (m <= maxMag) { mags.push_back(m); }
+    };
+    auto add3 = [&](u128 m) {
+        addm(m);
+        addm(m + 1);
+        if (m > 0) { addm(m - 1); }
+    };
+    auto powers = [&](unsigned r) {
+        std::vector<u128> v{1};
+        while (v.back() <= maxMag / r) { v.push_back(v.back() * r); }
+        return v;
+    };
+    auto const p2  = powers(2);
+    auto const p10 = powers(10);
+    auto const pB  = powers(static_cast<unsigned>(base));
+    // products that fit (all factors <= maxMag <= 2^64, so the guarded multiplications cannot wrap in 128 bits)
+    auto mul = [&](u128 x, u128 y, u128& out) {
+        if (y != 0 && x > maxMag / y) { return false; }
+        out = x * y;
+        return true;
+    };
+    for (std::size_t b = 0; b < p10.size(); ++b) {
+        for (std::size_t cc = 0; cc < pB.size() && cc <= 3; ++cc) {
+            u128 tail = 0;
+            if (!mul(p10[b], pB[cc], tail)) { continue; }
+            for (std::size_t a = 0; a < p2.size(); ++a) {
+                u128 x = 0;
+                if (mul(p2[a], tail, x)) { add3(x); }
+            }
+            for (unsigned w : {7U, 8U, 15U, 16U, 24U, 31U, 32U, 33U, 48U, 63U}) {
+                if (w >= p2.size()) { continue; }
+                for (int sgn : {-1, 1}) {
+                    u128 x = 0;
+                    if (mul(static_cast<u128>(p2[w] + static_cast<u128>(sgn)), tail, x)) { add3(x); }
+                }
+            }
+        }
+    }
+    static unsigned const chunk[] = {1, 2, 4, 8, 9};
+    for (auto const* pw : {&p10, &pB}) {
+        auto const& pr = *pw;
+        u128 const R   = pr.size() > 1 ? pr[1] : 0;
+        for (std::size_t p = 1; p < pr.size(); ++p) {
+            u128 const P = pr[p];
+            for (u128 d : {u128(1), u128(2), R - 1, R + 1, maxMag / P}) {
+                u128 hi = 0;
+                if (d == 0 || !mul(d, P, hi)) { continue; }
+                addm(hi);
+                addm(hi + (P - 1)); // every lower digit is R-1
+                for (unsigned q : chunk) {
+                    if (q >= p) { break; }
+                    u128 const Q = pr[q];
+                    addm(hi + 1);
+                    addm(hi + Q - 1); // zero chunk above q digits of R-1
+                    addm(hi + Q);
+                    addm(hi + Q + 1);
+                    for (unsigned r : chunk) {
+                        if (q + r > p) { break; }
+                        addm(hi + (Q - 1) * pr[r]); // q digits of R-1 in the middle, r zeros below
+                    }
+                }
+            }
+        }
+    }
+    std::sort(mags.begin(), mags.end());
+    mags.erase(std::unique(mags.begin(), mags.end()), mags.end());
+    std::vector<T> out;
+    out.reserve(mags.size() * 2);
+    for (u128 m : mags) {
+        if (m <= static_cast<u128>(L::max())) { out.push_back(static_cast<T>(m)); }
+        if constexpr (std::is_signed_v<T>) {
+            if (m != 0) { out.push_back(static_cast<T>(static_cast<std::make_unsigned_t<T>>(0) - static_cast<std::make_unsigned_t<T>>(m))); }
+        }
+    }
+    return out;
+}
+
+// the buffer lengths around the exact fit only (the complete 0..n+2 ladder is run for the boundary and random values)
+template <typename T>
+void point_light(T v, int base)
+{
+    char ref[80];
+    int const n = ref_digits(v, base, ref);
+    for (int len = n - 1; len <= n + 1; ++len) { one_to_chars(v, base, len, Heap, ref, n); }
+    one_to_chars(v, base, n, Canary, ref, n);
+    one_to_chars(v, base, n - 1, Canary, ref, n);
+    one_from_integer<T, true>(v, base, n + 1, Heap, ref, n);
+    one_from_integer<T, true>(v, base, n, Canary, ref, n);
+    one_roundtrip(v, base, ref, n);
+}
+
 std::vector<int> bases16(bool thorough)
 {
     std::vector<int> b;
@@ -443,6 +546,24 @@ void sweep_wide(vf::Ctx& c, std::uint64_t& item)
                 char ref[80];
                 int n = ref_digits(v, base, ref);
                 vf::sample("to_chars", [&] { return std::string("to_chars<") + tname<T>() + ">(" + vstr(v) + ", base " + std::to_string(base) + ") == " + vis(ref, static_cast<std::size_t>(n)) + ", buffer lengths 0.." + std::to_string(n + 2) + " (heap + canary)"; });
+            }
+        }
+        flush_stats();
+    }
+}
+
+template <typename T>
+void sweep_structured(vf::Ctx& c, std::uint64_t& item)
+{
+    for (int base = 2; base <= 36; ++base) {
+        if (!c.mine(item++)) { continue; }
+        std::uint64_t i = 0;
+        for (T v : structured_values<T>(base)) {
+            point_light(v, base);
+            if ((++i & 0xFFF) == 1 && (base == 10 || base == 7)) {
+                char ref[80];
+                int n = ref_digits(v, base, ref);
+                vf::sample("to_chars", [&] { return std::string("structured value: to_chars<") + tname<T>() + ">(" + vstr(v) + ", base " + std::to_string(base) + ") == " + vis(ref, static_cast<std::size_t>(n)) + ", buffer lengths " + std::to_string(n - 1) + ".." + std::to_string(n + 1); });
             }
         }
         flush_stats();
@@ -502,6 +623,12 @@ void sweep_to_string(vf::Ctx& c, vf::Rng& rng)
             if (std::is_signed_v<T> || x >= 0) { to_string_value(static_cast<T>(x)); }
         }
     }
+    {
+        std::uint64_t i = 0;
+        for (T v : structured_values<T>(10)) {
+            if (c.mine(i++)) { to_string_value(v); }
+        }
+    }
     std::uint64_t const n = c.thorough() ? 20000 : 1500;
     for (std::uint64_t i = 0; i < n; ++i) { to_string_value(random_value<T>(rng)); }
     flush_stats();
@@ -521,9 +648,10 @@ void vf_run(vf::Ctx& c)
     sweep_small<char>(c, all, item);
     sweep_small<signed char>(c, all, item);
     sweep_small<unsigned char>(c, all, item);
-    // 2. 16-bit types: every value; quick: bases {2,8,10,16,36}; thorough: all 35 bases
-    sweep_small<short>(c, bases16(c.thorough()), item);
-    sweep_small<unsigned short>(c, bases16(c.thorough()), item);
+    // 2. 16-bit types: every value, all 35 bases
+    // (the enumeration turned out cheap enough — about 20 CPU-seconds — to run all 35 bases in the quick tier as well)
+    sweep_small<short>(c, bases16(true), item);
+    sweep_small<unsigned short>(c, bases16(true), item);
 #endif
 #if C10_FMT_PART != 1
     // 3. 32/64-bit types: boundary values for every base
@@ -533,8 +661,15 @@ void vf_run(vf::Ctx& c)
     sweep_wide<unsigned long>(c, item);
     sweep_wide<long long>(c, item);
     sweep_wide<unsigned long long>(c, item);
-    // 4. seeded random values: 10^5 (quick) / 10^7 (thorough) in total over the shards and the six wide types
-    std::uint64_t const total = c.thorough() ? 10000000ULL : 100000ULL;
+    // 3b. structured special values (chunk boundaries in radix 10 and radix base) for every base
+    sweep_structured<int>(c, item);
+    sweep_structured<unsigned>(c, item);
+    sweep_structured<long>(c, item);
+    sweep_structured<unsigned long>(c, item);
+    sweep_structured<long long>(c, item);
+    sweep_structured<unsigned long long>(c, item);
+    // 4. seeded random values: 6*10^5 (quick) / 10^7 (thorough) in total over the shards and the six wide types
+    std::uint64_t const total = c.thorough() ? 10000000ULL : 600000ULL;
     std::uint64_t const per   = total / static_cast<std::uint64_t>(c.nshards) / 6 + 1;
     sweep_random<int>(rng, per);
     sweep_random<unsigned>(rng, per);
